@@ -1745,6 +1745,11 @@ def l_statusdata( ctx ):
         p = src.get( pqn )
         br = [ i for i in ast.walk( p ) if isinstance( i, ast.If ) and svc in attrs_in( i.test ) ]
         tests = [ j for i in br for b in i.body for j in ast.walk( b ) if isinstance( j, ast.If ) and 'status' in attrs_in( j.test ) and 'service' not in attrs_in( j.test ) ]
+        if not tests and br:
+            # the branch of the reply is there, its data is produced - under no test of the status at all
+            res.bad( src, br[0], '%s ( %s ): the reply data is produced whatever the status' % ( pqn, svc ),
+                     'specified: data under status %s only - a refused request is answered with its status FOLLOWED by a body the reply parser never reads ( for a bundle: number, offsets and the octets of the embedded requests )' % ', '.join( '0x%02X' % v for v in want ), func=pqn )
+            continue
         if len( tests ) != 1:
             raise AnalysisError( '%s: %d status tests in the %s branch' % ( pqn, len( tests ), svc ))
         art = p.args.args[1].arg if len( p.args.args ) > 1 else 'data'
@@ -1903,4 +1908,46 @@ def l_galreply( ctx ):
     else:
         res.bad( src, branch[0], 'Get Attribute List reply data for attributes 1, 2, 99: %s' % ( got.hex() if got is not None else None ),
                  'the reply data must begin with the UINT number of attribute responses ( 03 00 ) followed by ( number, status [, value ] ) groups: without it a client written from the specification takes the first attribute number for the count' )
+    return res
+
+
+@rule( 'L-LEGACYTEXT', props=( 'C01', ), floor=1 )
+def l_legacytext( ctx ):
+    """legacy_CPF_0x0001.produce: when no .ip_address text is supplied, the text field is derived from the ENCODED sin_addr octets ( whatever form
+    the field was given in - the documented 32-bit integer, or text ): a def-use walk over the fall-back block - the value stored as the text
+    depends on the octets just produced, not on the raw field ( str( 3232237053 ) is not '192.168.5.253' )."""
+    res = Result( 'L-LEGACYTEXT' )
+    src = ctx.src( PARSER )
+    fn = src.get( 'legacy_CPF_0x0001.produce' )
+    raw = { t.id for a in fn.body if isinstance( a, ast.Assign ) and 'sin_addr' in attrs_in( a.value ) for t in a.targets if isinstance( t, ast.Name ) }
+    octs = { t.id for a in fn.body if isinstance( a, ast.Assign ) and isinstance( a.value, ast.Call ) and ( call_name( a.value ) or '' ).endswith( '.produce' ) and names_in( a.value ) & raw
+             for t in a.targets if isinstance( t, ast.Name ) }
+    if not raw or not octs:
+        raise AnalysisError( 'legacy_CPF_0x0001.produce: the sin_addr field and its produced octets not found' )
+    fb = [ i for i in fn.body if isinstance( i, ast.If ) and isinstance( i.test, ast.Compare ) and isinstance( i.test.ops[0], ast.Is ) and isinstance( i.test.left, ast.Name )
+           and isinstance( i.test.comparators[0], ast.Constant ) and i.test.comparators[0].value is None ]
+    if len( fb ) != 1:
+        raise AnalysisError( 'legacy_CPF_0x0001.produce: the fall-back block ( if <text> is None: ) not found' )
+    TEXT = fb[0].test.left.id
+    infl = set( octs )
+    changed = True
+    stmts = [ st for st in ast.walk( fb[0] ) if isinstance( st, ( ast.Assign, ast.AugAssign, ast.With, ast.For, ast.Expr )) ]
+    while changed:
+        changed = False
+        for st in stmts:
+            heads = [ st.value ] if isinstance( st, ( ast.Assign, ast.AugAssign, ast.Expr )) else [ it.context_expr for it in st.items ] if isinstance( st, ast.With ) else [ st.iter ]
+            stored = { t.id for t in ast.walk( st ) if isinstance( t, ast.Name ) and isinstance( t.ctx, ast.Store ) } if not isinstance( st, ast.Expr ) else set()
+            for h in heads:
+                used = names_in( h )
+                if used & infl:
+                    # what a call is handed ( data=<record> ) and what the statement stores are downstream of the octets
+                    new = ( stored | { n for n in used } ) - infl
+                    if new:
+                        infl |= new; changed = True
+    last = [ a for a in ast.walk( fb[0] ) if isinstance( a, ast.Assign ) and any( isinstance( t, ast.Name ) and t.id == TEXT for t in a.targets ) ]
+    if last and names_in( last[-1].value ) & infl:
+        res.ok( src, last[-1], 'the text of an address given without one is read back from the encoded octets ( %s )' % ', '.join( sorted( octs )))
+    else:
+        res.bad( src, last[-1] if last else fb[0], 'legacy_CPF_0x0001.produce derives the missing address text from `%s`' % ( norm_text( last[-1].value ) if last else 'nothing' ),
+                 'the field may be given as a 32-bit integer ( documented ): its text form must be the dotted quad of the octets produced - str() of the integer puts 3232237053 into the 16-octet text field, and the message parses back to an ip_address that disagrees with sin_addr' )
     return res
